@@ -19,6 +19,11 @@ type Conn struct {
 	Writes [][]byte
 	segs   [][]byte
 	Reads  int
+	// FailWrite > 0: the FailWrite-th Write from now on takes only FailKeep bytes and returns ErrSink
+	// (a transport that fails after k bytes); every later Write fails too.
+	FailWrite int
+	FailKeep  int
+	failed    bool
 }
 
 var _ netio.Conn = (*Conn)(nil)
@@ -92,6 +97,18 @@ func (c *Conn) Read(b []byte) (int, error) {
 }
 
 func (c *Conn) Write(b []byte) (int, error) {
+	if c.failed {
+		return 0, ErrSink
+	}
+	if c.FailWrite > 0 {
+		c.FailWrite--
+		if c.FailWrite == 0 {
+			c.failed = true
+			n := max(min(c.FailKeep, len(b)-1), 0) // the write is cut: never the whole of b
+			c.Writes = append(c.Writes, bytes.Clone(b[:n]))
+			return n, ErrSink
+		}
+	}
 	c.Writes = append(c.Writes, bytes.Clone(b))
 	return len(b), nil
 }
